@@ -31,6 +31,30 @@ def run(case):
     r = cl.get('/read')
     if r.status_code != 200 or json.loads(r.get_data())['data'].get('k') != 'hello':
         problems.append('round trip failed: %s %s' % (r.status_code, r.get_data()[:80]))
+    # what the application stores is what the next request sees -- for values whose JSON text exercises every base64
+    # alphabet position (?, >, ~ ...), non-ASCII text, and after deleting / clearing
+    from urllib.parse import quote
+    for v in ['/search?q=1', 'a?b', '<b>bold</b>', '~bob', 'caf\u00e9 \u4e2d', '', 'x' * 300, '{"j": [1, 2]}', '>>>???~~~']:
+        c2 = Client(app, Response)
+        c2.get('/set?v=' + quote(v))
+        r = c2.get('/read')
+        try:
+            seen = json.loads(r.get_data())['data'].get('k') if r.status_code == 200 else '<status %s>' % r.status_code
+        except ValueError:
+            seen = '<unparsable>'
+        if seen != v:
+            problems.append('stored %r, the next request saw %r' % (v, seen))
+
+    def clearer(cookie):
+        cookie.clear()
+        return {'cleared': True}
+    app2 = Application([('/set', setter, render_basic), ('/read', reader, render_basic), ('/clear', clearer, render_basic)], middlewares=[mw])
+    c3 = Client(app2, Response)
+    c3.get('/set?v=kept')
+    c3.get('/clear')
+    r = c3.get('/read')
+    if r.status_code != 200 or json.loads(r.get_data())['data'] != {}:
+        problems.append('after clear() the next request saw %r' % r.get_data()[:80])
     for raw in case['cookies']:
         if raw == '<good>':
             raw_v = good
